@@ -35,7 +35,9 @@ def _target_src(kind, a):
     if kind == "generic_alias":
         return f"#[typeshare]\n{a}pub type Target<T> = Vec<T>;\n"
     if kind == "generic_enum":
-        return f'#[typeshare]\n#[serde(tag = "type", content = "content")]\n{a}pub enum Target<T> {{ A(T), B {{ f: Vec<T> }}, U }}\n'
+        # struct variants that mention the parameter through every container: their derived helper types take the parameter
+        return (f'#[typeshare]\n#[serde(tag = "type", content = "content")]\n{a}pub enum Target<T> {{ A(T), B {{ f: Vec<T> }}, U, '
+                "InArray { f: [T; 2] }, InSlice { f: &'static [T] }, InOption { f: Option<T> }, InMap { f: HashMap<String, T> }, InGen { f: Gen<T> }, InNested { f: Vec<Option<[T; 2]>> } }\n")
     if kind == "unit_struct":
         return f"#[typeshare]\n{a}pub struct Target;\n"
     if kind == "newtype_struct":
@@ -163,6 +165,12 @@ def sites(lang, obs, case, prefix):
         if case["kind"] in ("recursive_struct",):
             for m in t.get("members", []):
                 out.append(("self_" + m["key"], target_leaf(m["ty"], others), None))
+        if t["kind"] == "union" and case["kind"] == "generic_enum":
+            # the parameter inside the struct variants of the generic target: never prefixed or renamed (ParamOk), wherever it is mentioned
+            for w in ("B", "InArray", "InSlice", "InOption", "InMap", "InGen", "InNested"):
+                for m in observe.struct_variant_members(lang, obs, tnames, w, w) or []:
+                    if m["key"] == "f":
+                        out.append(("param", target_leaf(m["ty"], {pre + "Gen", "Gen", "String"}), "T-in-" + w))
         if t["kind"] == "union":
             for v in t["variants"]:
                 if case["kind"] == "recursive_enum" and v["wire"] == "Node" and v.get("ty"):
@@ -211,8 +219,10 @@ def run_cases(chk, cases):
                           "target": c["target"] if not site.startswith("second") else c["second"]}
                     if tk == "host":
                         ev["target"] = {"ident": "RHost", "rename": ""}
+                    if tk and tk.startswith("T-in-"):
+                        ev["param"] = "T"
                     events.append(ev)
-                    meta.append((lang, c["case"], site, srcs[i]))
+                    meta.append((lang, c["case"], site if not (tk and tk.startswith("T-in-")) else "param_in_variant_" + tk[5:], srcs[i]))
     return events, meta
 
 
